@@ -6,9 +6,33 @@ import codecs
 import collections
 import math
 import os
-import re
 
 from wordseg import utils
+
+
+class _Boundary(object):
+    """The utterance boundary marker
+
+    A unit like the others when the transition probabilities are
+    estimated, but equal to no unit of the text (it used to be the
+    string 'UB', which a text can contain).
+
+    """
+    def __repr__(self):
+        return 'UB'
+
+
+UB = _Boundary()
+
+
+def _units(text):
+    """Returns the units of `text` with a boundary marker between utterances"""
+    units = []
+    for n, line in enumerate(text):
+        if n > 0:
+            units.append(UB)
+        units += line.split()
+    return units
 
 
 def _threshold_relative(units, tps):
@@ -28,7 +52,7 @@ def _threshold_relative(units, tps):
         cond = (tps[prelast, last] > tps[last, unit]
                 and tps[last, unit] < tps[unit, _next])
 
-        if cond or last == 'UB' or unit == 'UB':
+        if cond or last is UB or unit is UB:
             cword = []
             cwords.append(cword)
 
@@ -53,7 +77,7 @@ def _threshold_absolute(units, tps):
 
     cwords = [last_word]
     for unit in units[1:]:
-        if tps[last, unit] <= tp_mean or last == 'UB' or unit == 'UB':
+        if tps[last, unit] <= tp_mean or last is UB or unit is UB:
             last_word = []
             cwords.append(last_word)
 
@@ -99,8 +123,23 @@ def _segment(units, tps, threshold):
     # segment the input given the transition probalities
     cwords = (_threshold_relative(units, tps) if threshold == 'relative'
               else _threshold_absolute(units, tps))
-    segtext = ' '.join(''.join(c) for c in cwords)
-    return [utt.strip() for utt in re.sub(' +', ' ', segtext).split('UB')]
+    # rebuild the utterances from the words, the boundary marker ends
+    # the current utterance
+    utterances, words = [], []
+    for cword in cwords:
+        word = ''
+        for unit in cword:
+            if unit is UB:
+                if word:
+                    words.append(word)
+                utterances.append(' '.join(words))
+                words, word = [], ''
+            else:
+                word += unit
+        if word:
+            words.append(word)
+    utterances.append(' '.join(words))
+    return utterances
 
 
 # -----------------------------------------------------------------------------
@@ -163,12 +202,12 @@ def segment(text, train_text=None, threshold='relative', dependency='ftp',
     text = [line.strip() for line in text]
     if not text:
         return []
-    test_units = ' UB '.join(text).split()
+    test_units = _units(text)
 
     if train_text is None:
         train_units = test_units
     else:
-        train_units = ' UB '.join(line.strip() for line in train_text).split()
+        train_units = _units(line.strip() for line in train_text)
 
     # estimate the transition probabilities
     tps = _train(train_units, dependency)
